@@ -323,10 +323,17 @@ def synthetic_runs(ck: Check, calc, n_runs: int, reqs, expect, stats, samples):
                      events=[{kk: ev[kk] for kk in ("name", "tag", "payload")} for ev in pl.events],
                      expected_logs=[a[:4] for a in exp], observed_logs=[b[:4] for b in got])
             contrib = 0
+            own = 0.0
             for a in exp:
                 contrib += calc.get_damage(DamageLog(name=a[0], damage=a[1], hit=a[2], tag=a[3], buff=a[4]))
+                st = calc.character_spec + a[4]
+                factor = (calc.damage_logic.get_damage_factor if a[3] == Tag.DAMAGE else calc.damage_logic.get_dot_factor)(st, calc.armor)
+                own += (a[1] * 0.01) * a[2] * factor * calc.level_advantage * calc.force_advantage
             if not close(contrib, calc.calculate_damage(en)):
                 fail("entry-damage-vs-events", playlog=i, expected=contrib, observed=calc.calculate_damage(en),
+                     events=[{kk: ev[kk] for kk in ("name", "tag", "payload")} for ev in pl.events])
+            elif not close(own, calc.calculate_damage(en)):
+                fail("entry-damage-vs-the-events-own-figures", playlog=i, expected=own, observed=calc.calculate_damage(en),
                      events=[{kk: ev[kk] for kk in ("name", "tag", "payload")} for ev in pl.events])
             if rng.random() < 0.5:
                 reqs.append({"fn": "report_build", "clock": frac_str(pl.clock), "buff": stat_vec(buff),
@@ -390,10 +397,19 @@ def run_one(ck: Check, job: str, variant: int, n_cmds: int, reqs, expect, stats,
                  expected_logs=[a[:4] for a in exp], observed_logs=[b[:4] for b in got])
         # damage of the entry = sum of the contributions of all its events
         contrib = 0
+        own = 0.0
         for a in exp:
             contrib += calc.get_damage(DamageLog(name=a[0], damage=a[1], hit=a[2], tag=a[3], buff=a[4]))
+            # ... and computed here from the event itself: damage% x hits x the factor of the stat with the buff in force
+            # (the factor functions are property C12's) x the two advantages -- every hit of the event counts
+            st = calc.character_spec + a[4]
+            factor = (calc.damage_logic.get_damage_factor if a[3] == Tag.DAMAGE else calc.damage_logic.get_dot_factor)(st, calc.armor)
+            own += (a[1] * 0.01) * a[2] * factor * calc.level_advantage * calc.force_advantage
         if not close(contrib, calc.calculate_damage(en)):
             fail("entry-damage-vs-events", playlog=i, expected=contrib, observed=calc.calculate_damage(en))
+        elif not close(own, calc.calculate_damage(en)):
+            fail("entry-damage-vs-the-events-own-figures", playlog=i, expected=own, observed=calc.calculate_damage(en),
+                 events=[{"name": a[0], "damage": a[1], "hit": a[2], "tag": str(a[3])} for a in exp])
     stats["events"] += n_events
     stats["qualifying_events"] += n_q
 
